@@ -93,11 +93,15 @@ def generate(seed, run, tier):
     # always be the first traversal after a write and could mask state kept
     # between traversals; some runs observe less, and not by iterating
     sweep = weighted_choice(crng, [({"iter": True, "stride": 1}, 55), ({"iter": False, "stride": 1}, 20), ({"iter": False, "stride": 3}, 15), ({"iter": True, "stride": 2}, 10)])
+    # a second, independent TrieDict in the same process: instances must not
+    # share state (class attributes, module-level caches)
+    n_tries = crng.choice([1, 1, 1, 2])
     config = {
         "alphabet": alphabet,
         "depth": depth,
         "fault_class": bool(enabled),
         "sweep": sweep,
+        "tries": n_tries,
     }
 
     unique_counter = [0]
@@ -131,6 +135,10 @@ def generate(seed, run, tier):
             ]
         )
 
+    task_trie = {}
+    for kind_, count in (("W", n_writers), ("R", n_readers), ("I", n_iters)):
+        for i in range(count):
+            task_trie[(kind_, i)] = crng.randrange(n_tries)
     events = []
     live = {}  # iterator task -> True when an iterator is open
     tasks = (
@@ -146,6 +154,7 @@ def generate(seed, run, tier):
                 continue
             ev = scripts[idx].pop(0)
             ev["c"] = "W%d" % idx
+            ev["t"] = task_trie[("W", idx)]
             # arbitrary-point cancellation of live traversals lands right
             # before a mutation
             if "iter_cancel" in enabled:
@@ -168,7 +177,7 @@ def generate(seed, run, tier):
             op = weighted_choice(
                 wrng, [("get", 3), ("get_default", 2), ("getitem", 3), ("lmpv", 4), ("len", 1)]
             )
-            ev = {"op": op, "c": "R%d" % idx}
+            ev = {"op": op, "c": "R%d" % idx, "t": task_trie[("R", idx)]}
             if op != "len":
                 ev["key"] = draw_key(depth + 1)
                 ev["form"] = wrng.choice(forms)
@@ -178,7 +187,7 @@ def generate(seed, run, tier):
         else:
             it = "I%d" % idx
             if it not in live:
-                events.append({"op": "iter_open", "it": it, "kind": wrng.choice(ITER_KINDS), "c": it})
+                events.append({"op": "iter_open", "it": it, "kind": wrng.choice(ITER_KINDS), "c": it, "t": task_trie[("I", idx)]})
                 live[it] = True
             elif wrng.random() < 0.25:
                 events.append({"op": "iter_drain", "it": it, "c": it})
@@ -243,11 +252,21 @@ class Run(object):
         self.cfg = config
         self.stats = stats
         self.known = known
-        self.trie = TrieDict()
-        self.model = {}
+        k = config.get("tries", 1)
+        self.tries = [TrieDict() for _ in range(k)]
+        self.models = [{} for _ in range(k)]
+        self.t = 0
         self.iters = {}
         self.universe = all_keys(config["alphabet"], config["depth"] + 1)
         self.sweeps = 0
+
+    @property
+    def trie(self):
+        return self.tries[self.t]
+
+    @property
+    def model(self):
+        return self.models[self.t]
 
     # -- comparison helpers ---------------------------------------------------
     def fail(self, invariant, op, got, expected, detail=None):
@@ -351,13 +370,24 @@ class Run(object):
     # -- one event ----------------------------------------------------------------
     def mutation_begins(self):
         for rec in self.iters.values():
-            if not rec["dirty"]:
+            if rec["t"] == self.t and not rec["dirty"]:
                 rec["dirty"] = True
                 self.stats.probe("iterator_overtaken_by_mutation")
 
     def step(self, ev):
         op = ev["op"]
         stats = self.stats
+        if op.startswith("iter_") and op != "iter_open":
+            rec = self.iters.get(ev["it"])
+            if rec is None:
+                return
+            self.t = rec["t"]
+        else:
+            self.t = ev.get("t", 0)
+            if self.t >= len(self.tries):
+                return
+        if len(self.tries) > 1:
+            stats.probe("second_instance_in_process")
         model = self.model
         if op == "set":
             key = tuple(ev["key"])
@@ -429,7 +459,7 @@ class Run(object):
         elif op == "iter_open":
             if ev["it"] in self.iters:
                 return
-            self.iters[ev["it"]] = {"gen": self.open_iter(ev["kind"]), "kind": ev["kind"], "got": [], "dirty": False}
+            self.iters[ev["it"]] = {"gen": self.open_iter(ev["kind"]), "kind": ev["kind"], "got": [], "dirty": False, "t": self.t}
             if len(self.iters) > 1:
                 stats.probe("iterators_interleaved")
             stats.event("%s|iter_open|%s" % (ev["it"], ev["kind"]))
@@ -461,9 +491,11 @@ class Run(object):
             rec = self.iters.pop(ev["it"], None)
             if rec is None:
                 return
-            if ev["how"] == "close":
+            if ev["how"] == "close" and hasattr(rec["gen"], "close"):
                 rec["gen"].close()
-            elif ev["how"] == "drop":
+            elif ev["how"] == "drop" or not hasattr(rec["gen"], "throw"):
+                # (a plain iterator has neither close() nor throw(): dropping it
+                # is the only way to abandon it)
                 rec["gen"] = None  # the caller just stops iterating
             else:
                 try:
@@ -483,7 +515,9 @@ def execute(case, stats, known):
     run = Run(case["config"], stats, known)
     for ev in case["events"]:
         run.step(ev)
-    run.sweep("end", force=True)
+    for t in range(len(run.tries)):
+        run.t = t
+        run.sweep("end", force=True)
 
 
 # -----------------------------------------------------------------------------
@@ -530,6 +564,10 @@ def shrink_config(case):
         c = dict(cfg)
         c["depth"] = cfg["depth"] - 1
         out.append({"config": c, "events": case["events"]})
+    if cfg.get("tries", 1) > 1:
+        c = dict(cfg)
+        c["tries"] = 1
+        out.append({"config": c, "events": [dict(e, t=0) for e in case["events"] if e.get("t", 0) == 0 or "t" not in e]})
     used = set()
     for ev in case["events"]:
         used.update(ev.get("key", ()))
@@ -593,6 +631,7 @@ PROBES = [
     "iterator_judged",
     "iterator_overtaken_by_mutation",
     "iter_cancelled",
+    "second_instance_in_process",
 ]
 NO_SEAM = (
     "TrieDict has no I/O, clock, thread or network seam: message loss, partitions, clock skew, disk and "
